@@ -4,26 +4,13 @@
 From TT Require Import Base.Prelude Model.Outcome Model.ReaderGuards.
 
 (* ---- WebVTT line machine -------------------------------------------------------------------------------------- *)
-(* finding vtt-empty-file *)
-Theorem C18_vtt_total_refuted_empty : vtt_run [] [] = Internal AttributeErr.
-Proof. vm_compute. reflexivity. Qed.
-
-(* finding vtt-cue-without-payload:  "WEBVTT\n\n00:01.000 --> 00:02.000\n" *)
-Definition w_vtt_no_payload : text :=
-  [87;69;66;86;84;84;10;10;48;48;58;48;49;46;48;48;48;32;45;45;62;32;48;48;58;48;50;46;48;48;48;10].
-Theorem C18_vtt_total_refuted_no_payload :
-  exists content, readlines content <> [] /\ vtt_run [] content = Internal UnboundLocalErr
-                  /\ arrow_without_payload (map vtt_classify (readlines content)) = true.
-Proof. exists w_vtt_no_payload. split; [vm_compute; discriminate|]. split; vm_compute; reflexivity. Qed.
-
 (* finding vtt-percentage-overflow:  "... --> 00:02.000 size:999...9%\nx\n" with 400 nines *)
 Definition w_vtt_overflow : text :=
   [87;69;66;86;84;84;10;10;48;48;58;48;49;46;48;48;48;32;45;45;62;32;48;48;58;48;50;46;48;48;48;32;115;105;122;101;58]
   ++ repeat 57 400 ++ [37;10;120;10].
 Theorem C18_vtt_total_refuted_overflow :
   vtt_run [] w_vtt_overflow = Internal OverflowErr
-  /\ vtt_any_overflow (map vtt_classify (readlines w_vtt_overflow)) = true
-  /\ arrow_without_payload (map vtt_classify (readlines w_vtt_overflow)) = false.
+  /\ vtt_any_overflow (map vtt_classify (readlines w_vtt_overflow)) = true.
 Proof. repeat split; vm_compute; reflexivity. Qed.
 
 (* ---- the cursors ---------------------------------------------------------------------------------------------- *)
@@ -70,24 +57,11 @@ Definition tti (cs : Z) (sec : Z) : list Z :=                                   
   [0; 1; 0; 255; cs; 0; 0; sec; 0; 0; 0; sec + 1; 0; 20; 2; 0] ++ repeat 143 112.
 Definition cfg0 := {| cfg_start := StartNone; cfg_rows := RowsNone |}.
 
-(* finding stl-bad-tcp: TCP field blank, program_start_tc = "TCP" *)
-Theorem C18_stl_refuted_bad_tcp :
-  let cfg := {| cfg_start := StartTCP; cfg_rows := RowsNone |} in
-  stl_run cfg [] gsi_blank = Internal AttributeErr /\ trig_bad_tcp cfg (firstn 1024 gsi_blank) = true.
-Proof. split; vm_compute; reflexivity. Qed.
-
-(* finding stl-bad-mnr: MNR blank, max_row_count = "MNR", open subtitles, a subtitle at 30 s *)
-Theorem C18_stl_refuted_bad_mnr :
-  let cfg := {| cfg_start := StartNone; cfg_rows := RowsMNR |} in
-  stl_run cfg [] (gsi_blank ++ tti 0 30) = Internal AttributeErr /\ trig_bad_mnr cfg (firstn 1024 (gsi_blank ++ tti 0 30)) = true
-  /\ stl_run cfg [] (gsi_blank ++ tti 0 5) = OkDoc.                                   (* before 23 s the subtitle is silently dropped *)
-Proof. repeat split; vm_compute; reflexivity. Qed.
-
 (* finding stl-zero-row-count: MNR = "00" *)
 Theorem C18_stl_refuted_zero_rows :
   let cfg := {| cfg_start := StartNone; cfg_rows := RowsMNR |} in
   let file := patch 253 [48; 48] gsi_blank ++ tti 0 5 in
-  stl_run cfg [] file = Internal ZeroDivisionErr /\ trig_bad_mnr cfg (firstn 1024 file) = true.
+  stl_run cfg [] file = Internal ZeroDivisionErr /\ trig_zero_rows cfg (firstn 1024 file) = true.
 Proof. split; vm_compute; reflexivity. Qed.
 
 (* finding stl-zero-block-count: TNB = "00000" *)
@@ -107,3 +81,11 @@ Theorem C18_srt_unbound_variant_refuted :
   srt_run_unbound [] [49;10;48;48;58;48;48;58;48;49;44;48;48;48;32;45;45;62;32;48;48;58;48;48;58;48;50;44;48;48;48;10;10]
   = Internal UnboundLocalErr.
 Proof. vm_compute. reflexivity. Qed.
+
+(* ---- repaired in the repository (commits 7ed55ac, 05a353c, 9e84fe8, 41b1329): the former witnesses now pass ---------- *)
+Theorem C18_repaired_witnesses_pass :
+  vtt_run [] [] = OkDoc                                                                                   (* empty file *)
+  /\ vtt_run [] [87;69;66;86;84;84;10;10;48;48;58;48;49;46;48;48;48;32;45;45;62;32;48;48;58;48;50;46;48;48;48;10] = OkDoc   (* cue without payload *)
+  /\ stl_run {| cfg_start := StartTCP; cfg_rows := RowsNone |} [] (gsi_blank ++ tti 0 5) = OkDoc          (* blank TCP *)
+  /\ stl_run {| cfg_start := StartNone; cfg_rows := RowsMNR |} [] (gsi_blank ++ tti 0 30) = OkDoc.        (* blank MNR, subtitle at 30 s *)
+Proof. repeat split; vm_compute; reflexivity. Qed.
